@@ -6,13 +6,23 @@ import (
 	"sort"
 
 	"github.com/couchbase/moss"
+	"verifsim/simrt"
 )
 
 // mergeOp is the order-sensitive, never-nil merge operator used by the harness.
 type mergeOp struct{}
 
+// mergeRefuseTask: while set, the operator refuses every merge it is asked for
+// by that task (the driver, around one Collection.Get of its own: an
+// application's operator may refuse, the read then fails - and must not damage
+// anything else).  Merges on behalf of other tasks are not affected.
+var mergeRefuseTask *simrt.Task
+
 func (mergeOp) Name() string { return "verif-append" }
 func (mergeOp) FullMerge(key, existing []byte, operands [][]byte) ([]byte, bool) {
+	if mergeRefuseTask != nil && simrt.Cur() == mergeRefuseTask {
+		return nil, false
+	}
 	out := append([]byte{}, existing...)
 	for _, o := range operands {
 		out = MergeFold(out, o)
